@@ -49,6 +49,12 @@ Log(c, kind) ==
        Inst("out", "o", c.o) \cup Inst("out", "s", c.s)
 
 Kinds == {"lit", "var", "enumlit", "enumvar", "objlit", "objvar", "objnested", "object"}
+
+\* merged field nodes: in  items { n @tq ... on B { n @tr } }  the query-side directives of ALL nodes merged under
+\* the response key wrap the field - one node for an A item, two for a B item (first node's directive outermost)
+MergedExpected(c) ==
+  [itemA |-> "out(r(a)" \o MarksRev("f", "f", c.f) \o MarksRev("f", "q", IF c.q >= 1 THEN 1 ELSE 0) \o Marks("o", "s", 1, c.s) \o ")",
+   itemB |-> "out(r(b)" \o MarksRev("f", "f", c.f) \o MarksRev("f", "q", c.q) \o Marks("o", "s", 1, c.s) \o ")"]
 Expected(c, kind) ==
   [arg |-> IF kind \in {"lit", "var"} THEN ArgScalar(c, kind)
            ELSE IF kind \in {"objlit", "objvar", "objnested"} THEN ArgObjField(c, kind)
